@@ -98,16 +98,12 @@ func c08Deviations(it *corpus.Item, two bool, fn func(src, why string)) {
 func c08Run(c *core.Ctx) {
 	level := 2
 	if c.Thorough() {
-		level = 4
+		level = 5
 	}
 	for _, fam := range []string{"php7", "php5"} {
 		f := corpus.MustFam(fam)
 		for _, it := range validItems(f, level) {
-			two := c.Thorough() && countSub(it.Why, "child") == 0
-			deep := level == 2 || countSub(it.Why, "child") < 2
-			if !deep {
-				continue
-			}
+			two := c.Thorough() && countSub(it.Why, "pos") <= 1 && countSub(it.Why, "pair") == 0
 			c08Deviations(it, two, func(src, why string) {
 				if src == it.Src || !c.Next() {
 					return
@@ -189,7 +185,7 @@ var c08Pairs = [][3]string{
 func init() {
 	register(&core.Check{
 		Prop: "C08", Level: "exploration", Exhaust: true, QuickSecs: 400, ThorSecs: 3000,
-		Rule: "every valid program of the E-lr corpora of both grammars (rules, 2-paths; thorough: nullable combinations, 3-paths): baseline layout (one blank per gap) versus a unique comment in every gap, every single gap set to each of 18 trivia (deletion where the neighbours stay separate tokens, blanks, tab, LF, CRLF, lone CR, block/doc/one-line/hash comments with each terminator, mixes), six whole-program layouts, thorough: pairs of neighbouring gaps; plus 49 hand-written pairs for the places where PHP's lexical grammar is delicate (close tag, halt compiler, casts, yield from, ->, names, heredoc, ternary, labels). " +
+		Rule: "every valid program of the E-lr corpora of both grammars (rules, 2-paths; thorough: nullable combinations, 3-paths, pairs of positions): baseline layout (one blank per gap) versus a unique comment in every gap, every single gap set to each of 18 trivia (deletion where the neighbours stay separate tokens, blanks, tab, LF, CRLF, lone CR, block/doc/one-line/hash comments with each terminator, mixes), six whole-program layouts, thorough: pairs of neighbouring gaps; plus 49 hand-written pairs for the places where PHP's lexical grammar is delicate (close tag, halt compiler, casts, yield from, ->, names, heredoc, ternary, labels). " +
 			"Oracle: the deviated layout parses without errors and its structural fingerprint (kinds, nesting, roles, values — no tokens, no positions) equals the baseline's. non-trivial = deviated program parsed; distinct by (version, source)",
 		Assume: []string{"gaps where PHP restricts trivia (inside a cast, yield…from, heredoc opener/closer lines, after the open tag) only get the trivia PHP allows there (mc/corpus.Allowed)"},
 		Run:    c08Run,
